@@ -93,6 +93,8 @@ class _Fn:
     def __init__(self, ctx, fq):
         self.ctx = ctx
         self.f = f = ctx.repo.function(fq)
+        if fq != FUNCS[1]:            # the propagation wrapper: Q-PSD judges each return
+            ctx.single_exit(f)
         self.roles = _roles(ctx)
         self.A = Alg()
         self.clo = Closure(f)
